@@ -55,6 +55,7 @@ type bWorld struct {
 	cavLists  [][]macaroon.Caveat
 	sameNonce []string
 	sameTail  []string
+	p5        string // a plain token with three caveats (its verified set has spare capacity)
 }
 
 func newBWorld(r *rng.R) *bWorld {
@@ -73,7 +74,13 @@ func newBWorld(r *rng.R) *bWorld {
 		{&rd},
 		{&flyio.Organization{ID: 1, Mask: resset.ActionRead}},
 		{&flyio.Organization{ID: 1, Mask: resset.ActionAll}}, // often a duplicate of an existing caveat
+		{&macaroon.ValidityWindow{NotBefore: 2, NotAfter: 1 << 41}}, // harmless
 	}
+	// scripted only (index 4): a restrictive caveat followed by a third-party caveat for tp1 -- Add refuses it on every token
+	// that already has a tp1 caveat, so Bundle.Attenuate fails as a whole on a bundle holding such a token
+	none := resset.ActionNone
+	c3, _ := macaroon.NewCaveat3P(w.tpKeys[bLocs[1]], bLocs[1])
+	w.cavLists = append(w.cavLists, []macaroon.Caveat{&none, c3})
 	return w
 }
 
@@ -319,6 +326,9 @@ func (w *bWorld) pool() (perms, dis, junk []string) {
 	pbad := mk("k1", macaroon.NewSigningKey(), bLocs[0]) // wrongly keyed
 	punk := mk("zz", w.keys["k1"], bLocs[0])             // unknown key-id
 	pforeign := mk("k1", w.keys["k1"], bLocs[3])         // foreign location: never a permission token
+	p5, _ := macaroon.New([]byte("k1"), bLocs[0], w.keys["k1"])
+	p5.Add(&flyio.Organization{ID: 1, Mask: resset.ActionAll}, &macaroon.ValidityWindow{NotBefore: 0, NotAfter: 1 << 41}, &macaroon.ValidityWindow{NotBefore: 1, NotAfter: 1 << 41})
+	w.p5 = str(p5)
 	perms = []string{str(p0), str(p1), str(p2), str(p1a), str(pbad), str(punk), str(p3), str(p4), str(p4)}
 	d1 := discharge(p1, bLocs[1], w.tpKeys[bLocs[1]])
 	d2a := discharge(p2, bLocs[1], w.tpKeys[bLocs[1]], &rd)
@@ -387,6 +397,9 @@ func genBundle(c *ctx, cached bool) {
 				st.Add(&cs.Case{Coq: "(KBun (mkTab [] [] [] []) [] [])", Class: "attenuate-3p", Nontrivial: true, Desc: map[string]any{"what": "Verify; Attenuate(third-party caveat); Validate"}, OracleFail: f})
 				break
 			}
+		}
+		if f := bundleAttenuateFailed(c.r.Fork()); f != "" {
+			st.Add(&cs.Case{Coq: "(KBun (mkTab [] [] [] []) [] [])", Class: "attenuate-failed-token", Nontrivial: true, Desc: map[string]any{"what": "Verify (fails); Attenuate; Discharge; Verify; Validate"}, OracleFail: f})
 		}
 	}
 	for i := 0; i < n; i++ {
@@ -551,6 +564,65 @@ func genBundle(c *ctx, cached bool) {
 			doDischarge(s2, 2, r.Bool())
 			rec(coqw.App("BHeader", coqw.N(s2)), w.headerObs(w.slots[s2]))
 		}
+		validateAll := func(s uint64) {
+			for q := range w.reqs {
+				rec(coqw.App("BValidate", coqw.N(s), coqw.N(uint64(q))), []int64{b2i64x(w.slots[s].Validate(w.reqs[q]) == nil)})
+			}
+		}
+		if !cached && r.P(1, 6) {
+			// a failed Attenuate leaves the bundle as it was: verified plain token + a token that already has a tp1 caveat;
+			// attenuating with [no action, third-party caveat for tp1] fails on the second one
+			// (the second token stays undischarged, so only the plain one can clear anything)
+			s := parseHdr(perms[0] + "," + perms[1])
+			b := w.slots[s]
+			w.recordDirect(b)
+			sets, _ := b.Verify(context.Background(), w.resolver())
+			var ids []uint64
+			for _, set := range sets {
+				ids = append(ids, w.csID(set))
+			}
+			rec(coqw.App("BVerify", coqw.N(s)), zl(ids))
+			validateAll(s)
+			w.recordAtt(b, 4)
+			err := b.Attenuate(w.cavLists[4]...)
+			rec(coqw.App("BAttenuate", coqw.N(s), coqw.N(4)), []int64{b2i64x(err == nil)})
+			validateAll(s)
+			rec(coqw.App("BHeader", coqw.N(s)), w.headerObs(b))
+		}
+		if cached && smallCache == false && r.P(1, 4) {
+			// two permission tokens that share a nonce (a token and its attenuation; a token and a forgery of it) verified in
+			// ONE call, then each presented alone: every result belongs to its own token
+			pair := rng.Pick(r, [][2]string{{perms[1], perms[3]}, {w.sameTail[0], w.sameTail[1]}, {w.sameTail[0], w.sameTail[2]}})
+			tail := ""
+			if pair[0] == perms[1] {
+				tail = "," + dis[0]
+			}
+			first := pair[0] + "," + pair[1]
+			if r.Bool() {
+				first = pair[1] + "," + pair[0]
+			}
+			s := parseHdr(first + tail)
+			verifyCached(s)
+			for _, alone := range []string{pair[1], pair[0]} {
+				s2 := parseHdr(alone + tail)
+				verifyCached(s2)
+				validateAll(s2)
+			}
+		}
+		if cached && r.P(1, 4) {
+			// two bundles get the same token's result through one cache and then attenuate differently: what one adds never
+			// shows up in (or disappears from) the other
+			s1, s2 := parseHdr(w.p5), parseHdr(w.p5)
+			verifyCached(s1)
+			verifyCached(s2)
+			for _, sc := range [][2]uint64{{s1, 0}, {s2, 3}} {
+				w.recordAtt(w.slots[sc[0]], sc[1])
+				err := w.slots[sc[0]].Attenuate(w.cavLists[sc[1]]...)
+				rec(coqw.App("BAttenuate", coqw.N(sc[0]), coqw.N(sc[1])), []int64{b2i64x(err == nil)})
+			}
+			validateAll(s1)
+			validateAll(s2)
+		}
 		if cached && r.P(1, 4) {
 			// the same permission token with discharges that share a nonce but differ in caveats / signature
 			order := append([]string{}, w.sameNonce...)
@@ -657,7 +729,7 @@ func genBundle(c *ctx, cached bool) {
 			case 8:
 				rec(coqw.App("BLen", coqw.N(s)), []int64{int64(b.Len())})
 			case 9:
-				cl := uint64(r.Intn(len(w.cavLists)))
+				cl := uint64(r.Intn(4)) // (list 4 is used by the scripted failing attenuation only)
 				w.recordAtt(b, cl)
 				err := b.Attenuate(w.cavLists[cl]...)
 				rec(coqw.App("BAttenuate", coqw.N(s), coqw.N(cl)), []int64{b2i64x(err == nil)})
@@ -819,6 +891,43 @@ func bundleAttenuate3P(r *rng.R) string {
 	}
 	if _, err := b.Verify(context.Background(), bundle.WithKey([]byte("k"), key, nil)); err == nil {
 		return "attenuated token verifies without the discharge for the added third-party caveat"
+	}
+	return ""
+}
+
+// bundleAttenuateFailed: a caveat added through Bundle.Attenuate sticks to EVERY permission token, also to one whose earlier
+// verification failed (say, its discharge had not been fetched yet): Verify fails; Attenuate(read only) succeeds; Discharge;
+// Verify succeeds; then a write must be refused by the bundle and by a server re-parsing its header.
+func bundleAttenuateFailed(r *rng.R) string {
+	key := macaroon.NewSigningKey()
+	ka := macaroon.NewEncryptionKey()
+	m, _ := macaroon.New([]byte("k"), "https://perm.test", key)
+	m.Add(&flyio.Organization{ID: 1, Mask: resset.ActionAll})
+	m.Add3P(ka, "https://tp.test")
+	hdr, _ := m.String()
+	b, _ := bundle.ParseBundle("https://perm.test", hdr)
+	ver := bundle.WithKey([]byte("k"), key, nil)
+	if _, err := b.Verify(context.Background(), ver); err == nil {
+		return "setup: token verified without its discharge"
+	}
+	rd := resset.ActionRead
+	if err := b.Attenuate(&rd); err != nil {
+		return "setup: attenuate: " + err.Error()
+	}
+	if err := b.Discharge("https://tp.test", ka, func([]macaroon.Caveat) ([]macaroon.Caveat, error) { return nil, nil }); err != nil {
+		return "setup: discharge: " + err.Error()
+	}
+	if _, err := b.Verify(context.Background(), ver); err != nil {
+		return "setup: verify after discharge: " + err.Error()
+	}
+	one := uint64(1)
+	write := &flyio.Access{OrgID: &one, Action: resset.ActionWrite}
+	if b.Validate(write) == nil {
+		return "Attenuate returned nil but the caveat was not added to a token whose earlier verification had failed: the bundle clears a write after being attenuated to read-only"
+	}
+	fresh, _ := bundle.ParseBundle("https://perm.test", b.Header())
+	if _, err := fresh.Verify(context.Background(), ver); err == nil && fresh.Validate(write) == nil {
+		return "the header of a bundle attenuated to read-only clears a write at the server"
 	}
 	return ""
 }
